@@ -26,7 +26,11 @@ fn make_cells(v: &[Sexp], lib: &mut t::library::Library) -> Option<Vec<Ptr<t::ce
     let mut cells = vec![];
     for (i, c) in v.iter().enumerate() {
         let cv = c.list()?;
-        let lay = t::layout::Layout::new(format!("c{}", i), 0, t::outline::Outline::rect(cv[0].int()? as isize, cv[1].int()? as isize).ok()?);
+        // odd-numbered cells of at least 2 x 2 have a STEPPED outline with the same extent (one unit missing at the top right
+        // corner): sizes are the outline's extent, not its first step
+        let (w, h) = (cv[0].int()? as isize, cv[1].int()? as isize);
+        let outline = if i % 2 == 1 && w >= 2 && h >= 2 { t::outline::Outline::new(&[w, w - 1], &[h - 1, h]).ok()? } else { t::outline::Outline::rect(w, h).ok()? };
+        let lay = t::layout::Layout::new(format!("c{}", i), 0, outline);
         cells.push(lib.cells.add(lay));
     }
     Some(cells)
